@@ -25,7 +25,7 @@ if ! git -C /repo diff --quiet; then echo "/repo dirty, abort"; exit 1; fi
 git -C /repo apply $D/patch.diff || exit 1
 for P in "$@"; do
   echo "== check $P against the change"
-  ./vcheck $P --tier quick 2>&1 | tail -3 | tee $D/check_$P.txt; echo "exit=${PIPESTATUS[0]}" | tee -a $D/check_$P.txt
+  VERIF_DEV_RUN=1 ./vcheck $P --tier quick 2>&1 | tail -3 | tee $D/check_$P.txt; echo "exit=${PIPESTATUS[0]}" | tee -a $D/check_$P.txt
   cp build/replays/${P}_1.json $D/replay_$P.json 2>/dev/null
 done
 git -C /repo checkout -- .
